@@ -20,7 +20,8 @@ def gen_histories(ctx, n, family, label):
             if kc == 6 and rng.random() < 0.5:
                 kinds = {"sleep": 1, "put": 7, "get": 3, "cancel": 0.5, "ryield": 3, "return": 0.2}     # let the heap grow
         gens.append({"gen": {"seed": rng.randrange(1 << 30), "resources": resources,
-                             "halfcap": 1 if (family != "res" and rng.random() < 0.25) else 0, "nproc": rng.choice([2, 3, 4, 5]),
+                             "halfcap": 1 if (family != "res" and rng.random() < 0.25) else 0,
+                             "cscale": rng.choice([0, 0, -40, -40, -33, 30]) if family != "res" else 0, "nproc": rng.choice([2, 3, 4, 5]),
                              "max_procs": 5, "max_ops": rng.choice([5, 7]), "max_events": 60, "max_plan": 1,
                              "delays": [0, 1, 1, 2], "catch": [1], "kinds": kinds, "plan_kinds": {"run": 1}}})
     out = ctx.drive("kernel", gens, procs=12)
